@@ -76,3 +76,9 @@ pub uninterp spec fn be16(x: u16) -> u16;
 pub assume_specification [u16::to_be] (x: u16) -> (r: u16) ensures r == be16(x);
 pub uninterp spec fn from_be32(x: u32) -> u32;
 pub assume_specification [u32::from_be] (x: u32) -> (r: u32) ensures r == from_be32(x);
+
+// ---- the accepted socket (per-connection task of handle_new_tcp_connection): opaque; peer_addr() may fail (ENOTCONN for a
+//      connection reset while it was queued) and says nothing the proofs use
+#[verifier::external_type_specification] #[verifier::external_body] pub struct ExTokioTcpStream(tokio::net::TcpStream);
+#[verifier::external_type_specification] #[verifier::external_body] pub struct ExStdTcpStream(std::net::TcpStream);
+pub assume_specification [tokio::net::TcpStream::peer_addr] (s: &tokio::net::TcpStream) -> (r: std::io::Result<std::net::SocketAddr>);
